@@ -225,7 +225,7 @@ def check_allowlist(found):
     return bad
 
 
-def write_replay(pid, failures, r, ov, witness=None):
+def write_replay(pid, failures, r, ov, witness=None, dep_failed=()):
     os.makedirs(os.path.join(VERIF, "replays"), exist_ok=True)
     key = engine.sha(pid + "|" + "|".join(sorted(f.ident() for f in failures)) + "|" + json.dumps(witness, sort_keys=True))[:12]
     path = os.path.join(VERIF, "replays", f"{pid}-{key}.json")
@@ -233,6 +233,7 @@ def write_replay(pid, failures, r, ov, witness=None):
         "property": pid,
         "kind": "failed-obligations",
         "failed_obligations": [f.to_json() for f in failures],
+        "proof_steps_no_longer_verified": [f.to_json() for f in dep_failed],
         "witness": witness,
         "verus_cmd": r.cmd if r else None,
         "repo_src_sha256": {rel: engine.sha(fo.src) for rel, fo in ov.files.items()},
@@ -378,9 +379,12 @@ def decide(pid, P, tier, seed, sc, ov, r, fn_ranges, lt, t0, replay):
         }
     w = bounded.get("witness") if bounded else None
     if w is not None:
-        path = write_replay(pid, new_own, r, ov, w)
+        dep_failed = [f for f in failures if f not in new_own] if status == "undecided" else []
+        path = write_replay(pid, new_own, r, ov, w, dep_failed)
         for f in new_own:
             log("failed obligation:", f.ident())
+        for f in dep_failed[:6]:
+            log("proof step that no longer verifies (not an own obligation of %s):" % pid, f.ident())
         log("failing input (re-executed against the real code):", json.dumps({k: v for k, v in w.items() if k not in ("docs_hex",)}, ensure_ascii=False)[:1500])
         write_evidence(ev_path, pid, tier, seed, ov, r, failures, units, t0, notes, violations=max(1, len(new_own)), extra=extra)
         log(f"VIOLATION property={pid} replay={path}")
